@@ -23,6 +23,7 @@ struct Config
   uint64_t step_ns = 1000;            // simulated cost of one scheduling point
   unsigned stall_ppm = 0;             // chance (per million points) that the running thread is descheduled
   uint64_t stall_max_ns = 0;          // upper bound of one stall
+  unsigned create_stall_permille = 0; // chance that a thread is descheduled (up to stall_max_ns) right after creating a thread
   unsigned spurious_ppm = 0;          // chance that a condition wait returns spuriously
   bool wall_ms_aligned = false;       // CLOCK_REALTIME truncated to whole milliseconds
   uint64_t max_steps = 20000000;      // safety net: run is reported as 'livelock' beyond this
